@@ -117,3 +117,32 @@ def mentions_loopphi(t, header):
 
     mir.walk(t, visit)
     return found
+
+
+def iterator_entry_value(f, lp):
+    """value of the iterator object of a `for` loop when the loop is entered (e.g. into_iter(Range[a, b]))"""
+    t = header_next(f, lp)
+    if t is None:
+        return None
+    x = f.operand(t["args"][0], f.end_point(lp.header))
+    guard = 0
+    while guard < 8:
+        guard += 1
+        if x[0] == "refplace":
+            x = f.local_value(x[2], f.end_point(lp.header))
+        elif x[0] == "ref":
+            x = x[2]
+        elif x[0] == "loopphi":
+            d = f.phi_def(x)
+            preds = f.header_preds(x[1][0])
+            if d[0] != "phi":
+                return None
+            ops = [o for p, o in zip(preds, d[2]) if p not in lp.body]
+            if len(ops) != 1:
+                return None
+            x = ops[0]
+        elif x[0] == "mod":
+            x = x[1]
+        else:
+            break
+    return x
